@@ -26,6 +26,15 @@ def reset(model):
             raise RuntimeError(f"refusing to clean a root outside the scratch: {r}")
         if r.exists():
             shutil.rmtree(r, ignore_errors=True)
+        # stray files next to the root (e.g. a sidecar written for the root's parent) must not leak into the next case
+        par = r.parent
+        if par.exists() and "spilverif" in str(par):
+            for x in par.iterdir():
+                if x.is_file() or x.is_symlink():
+                    try:
+                        x.unlink()
+                    except OSError:
+                        pass
 
 
 def is_file_type(model, t: str) -> bool:
